@@ -56,6 +56,170 @@ theorem decodeResp_kind (b : Bytes) (r : Resp) (e : Entry) (h : decodeResp b = .
       · cases hg
       · cases hg; exact parseKind_kind h
 
+/-- decode after encode: every well-formed object (field values in the range of their wire width, sub-function
+    registered, record constraints of the class) is decoded from its own serialisation — as itself, not as a
+    neighbouring class, not as raw, not rejected -/
+theorem decodeResp_encodeResp (r : Resp) (h : r.WF) : decodeResp (encodeResp r) = .ok r := by
+  cases r with
+  | neg sid nrc =>
+    have h : nrc.toNat ∈ nrcTable := h
+    refine decodeResp_of (e := registry[0]) (by rfl) (by side) (by side) (by side) ?_
+    simp [registry, parseKind, pNeg, encodeResp, h]
+  | dsc ty rec =>
+    have h : ty.toNat < 0x80 := h
+    refine decodeResp_of (e := registry[1]) (by rfl) (by side) (by side) (by side) ?_
+    simp [registry, parseKind, pDsc, encodeResp]
+  | ecuReset ty pdt =>
+    have h : ty.toNat < 0x80 := h
+    cases pdt <;>
+    · refine decodeResp_of (e := registry[2]) (by rfl) (by side) (by side) (by side) ?_
+      simp [registry, parseKind, pEcuReset, encodeResp]
+  | secAccess ty seed =>
+    have h : ty.toNat < 0x80 := h
+    refine decodeResp_of (e := registry[19]) (by rfl) (by side) (by side) (by side) ?_
+    simp [registry, parseKind, pSecAccess, encodeResp]
+  | commCtrl ty =>
+    have h : ty.toNat < 0x80 := h
+    refine decodeResp_of (e := registry[20]) (by rfl) (by side) (by side) (by side) ?_
+    simp [registry, parseKind, pCommCtrl, encodeResp]
+  | testerPresent =>
+    refine decodeResp_of (e := registry[34]) (by rfl) (by side) (by side) (by side) ?_
+    simp [registry, parseKind, pTesterPresent, encodeResp]
+  | ctrlDTC ty =>
+    have h : ty.toNat < 0x80 := h
+    refine decodeResp_of (e := registry[35]) (by rfl) (by side) (by side) (by side) ?_
+    simp [registry, parseKind, pCtrlDTC, encodeResp]
+  | rdbi did rec =>
+    obtain ⟨hd, hr⟩ := h
+    obtain ⟨a, c, hac⟩ := toBE2_cases did
+    cases rec with
+    | nil => exact absurd rfl hr
+    | cons r rest =>
+      simp only [encodeResp, hac]
+      refine decodeResp_of (e := registry[17]) (by rfl) (by side) (by side) (by side) ?_
+      simp [registry, parseKind, pRdbi, fromBE_of_toBE2 hac hd]
+  | rmba rec =>
+    have hr : rec ≠ [] := h
+    cases rec with
+    | nil => exact absurd rfl hr
+    | cons r rest =>
+      refine decodeResp_of (e := registry[18]) (by rfl) (by side) (by side) (by side) ?_
+      simp [registry, parseKind, pRmba, encodeResp]
+  | dddi sub did =>
+    obtain ⟨hs, hn, hd⟩ := h
+    cases did with
+    | none =>
+      have := u8_of_toNat (hn rfl); subst this
+      refine decodeResp_of (e := registry[23]) (by rfl) (by side) (by side) (by side) ?_
+      simp [registry, parseKind, pDddi, encodeResp]
+    | some d =>
+      have hd := hd d rfl
+      obtain ⟨a, c, hac⟩ := toBE2_cases d
+      simp only [encodeResp, hac]
+      rcases hs with hs | hs | hs <;> (have := u8_of_toNat hs; subst this)
+      · refine decodeResp_of (e := registry[21]) (by rfl) (by side) (by side) (by side) ?_
+        simp [registry, parseKind, pDddi, fromBE_of_toBE2 hac hd]
+      · refine decodeResp_of (e := registry[22]) (by rfl) (by side) (by side) (by side) ?_
+        simp [registry, parseKind, pDddi, fromBE_of_toBE2 hac hd]
+      · refine decodeResp_of (e := registry[23]) (by rfl) (by side) (by side) (by side) ?_
+        simp [registry, parseKind, pDddi, fromBE_of_toBE2 hac hd]
+  | wdbi did =>
+    have hd : did < 0x10000 := h
+    obtain ⟨a, c, hac⟩ := toBE2_cases did
+    simp only [encodeResp, hac]
+    refine decodeResp_of (e := registry[24]) (by rfl) (by side) (by side) (by side) ?_
+    simp [registry, parseKind, pWdbi, fromBE_of_toBE2 hac hd]
+  | wmba alfid addr size =>
+    obtain ⟨ha, hs, haddr, hsize⟩ := h
+    have hlen : (toBE addr (alfid.toNat % 16) ++ toBE size (alfid.toNat / 16)).length
+        = alfid.toNat % 16 + alfid.toNat / 16 := by simp
+    have hal := alfid.toNat_lt
+    refine decodeResp_of (e := registry[33]) (by rfl) (by side) (by side) (by side) ?_
+    simp only [registry, List.getElem_cons_succ, List.getElem_cons_zero, parseKind, pWmba, encodeResp]
+    rw [if_pos ⟨trivial, ha, hs, hlen⟩, List.take_left' (by simp), List.drop_left' (by simp),
+      fromBE_toBE _ _ haddr, fromBE_toBE _ _ hsize]
+  | clearDTC =>
+    refine decodeResp_of (e := registry[3]) (by rfl) (by side) (by side) (by side) ?_
+    simp [registry, parseKind, pClearDTC, encodeResp]
+  | dtcCount sub mask fmt count =>
+    obtain ⟨hs, hf, hc⟩ := h
+    obtain ⟨a, c, hac⟩ := toBE2_cases count
+    simp only [encodeResp, hac]
+    simp [countSubs] at hs
+    rcases hs with hs | hs | hs <;> (have := u8_of_toNat hs; subst this)
+    · refine decodeResp_of (e := registry[4]) (by rfl) (by side) (by side) (by side) ?_
+      simp [registry, parseKind, pDtcCount, fromBE_of_toBE2 hac hc, hf]
+    · refine decodeResp_of (e := registry[13]) (by rfl) (by side) (by side) (by side) ?_
+      simp [registry, parseKind, pDtcCount, fromBE_of_toBE2 hac hc, hf]
+    · refine decodeResp_of (e := registry[14]) (by rfl) (by side) (by side) (by side) ?_
+      simp [registry, parseKind, pDtcCount, fromBE_of_toBE2 hac hc, hf]
+  | dtcList sub mask recs =>
+    obtain ⟨hs, hr, hdist⟩ := h
+    have hp : pDtcList (0x59 :: sub :: mask :: encRecs recs) = .ok (.dtcList sub mask recs) := by
+      simp [pDtcList, parseRecs_encRecs recs hr, hdist]
+    simp only [encodeResp]
+    rcases hs with hs | ⟨hs, hlen⟩
+    · simp [listSubsOpen] at hs
+      rcases hs with hs | hs | hs | hs | hs <;> (have := u8_of_toNat hs; subst this)
+      · exact decodeResp_of (e := registry[5]) (by rfl) (by side) (by side) (by side) hp
+      · exact decodeResp_of (e := registry[7]) (by rfl) (by side) (by side) (by side) hp
+      · exact decodeResp_of (e := registry[12]) (by rfl) (by side) (by side) (by side) hp
+      · exact decodeResp_of (e := registry[15]) (by rfl) (by side) (by side) (by side) hp
+      · exact decodeResp_of (e := registry[16]) (by rfl) (by side) (by side) (by side) hp
+    · simp [listSubsSingle] at hs
+      rcases hs with hs | hs | hs | hs <;> (have := u8_of_toNat hs; subst this)
+      · exact decodeResp_of (e := registry[8]) (by rfl) (by side) (by side) (by side) hp
+      · exact decodeResp_of (e := registry[9]) (by rfl) (by side) (by side) (by side) hp
+      · exact decodeResp_of (e := registry[10]) (by rfl) (by side) (by side) (by side) hp
+      · exact decodeResp_of (e := registry[11]) (by rfl) (by side) (by side) (by side) hp
+  | dtcExt dtc status recnum data =>
+    obtain ⟨hd, hr⟩ := h
+    obtain ⟨a, b, c, habc⟩ := toBE3_cases dtc
+    simp only [encodeResp, habc]
+    refine decodeResp_of (e := registry[6]) (by rfl) (by side) (by side) (by side) ?_
+    simp [registry, parseKind, pDtcExt, fromBE_of_toBE3 habc hd, hr]
+  | iocbi did rec =>
+    obtain ⟨hd, hr⟩ := h
+    obtain ⟨a, c, hac⟩ := toBE2_cases did
+    cases rec with
+    | nil => exact absurd rfl hr
+    | cons r rest =>
+      simp only [encodeResp, hac]
+      refine decodeResp_of (e := registry[25]) (by rfl) (by side) (by side) (by side) ?_
+      simp [registry, parseKind, pIocbi, fromBE_of_toBE2 hac hd]
+  | routine sub rid rec =>
+    obtain ⟨hs, hd⟩ := h
+    obtain ⟨a, c, hac⟩ := toBE2_cases rid
+    simp only [encodeResp, hac]
+    rcases hs with hs | hs | hs <;> (have := u8_of_toNat hs; subst this)
+    · refine decodeResp_of (e := registry[26]) (by rfl) (by side) (by side) (by side) ?_
+      simp [registry, parseKind, pRoutine, fromBE_of_toBE2 hac hd]
+    · refine decodeResp_of (e := registry[27]) (by rfl) (by side) (by side) (by side) ?_
+      simp [registry, parseKind, pRoutine, fromBE_of_toBE2 hac hd]
+    · refine decodeResp_of (e := registry[28]) (by rfl) (by side) (by side) (by side) ?_
+      simp [registry, parseKind, pRoutine, fromBE_of_toBE2 hac hd]
+  | upDownload rs lfid maxLen =>
+    obtain ⟨hrs, hlo, hhi, hm⟩ := h
+    have hp : pUpDownload (rs :: lfid :: toBE maxLen (lfid.toNat / 16)) = .ok (.upDownload rs lfid maxLen) := by
+      simp only [pUpDownload]
+      rw [if_pos ⟨hrs, hlo, hhi, by simp⟩, fromBE_toBE _ _ hm]
+    have hal := lfid.toNat_lt
+    simp only [encodeResp]
+    rcases hrs with hrs | hrs <;> subst hrs
+    · exact decodeResp_of (e := registry[29]) (by rfl) (by side) (by side) (by side) hp
+    · refine decodeResp_of (e := registry[30]) (by rfl) (by side) (by side) ?_ hp
+      simp [registry, subGate]
+  | transferData ctr rec =>
+    refine decodeResp_of (e := registry[31]) (by rfl) (by side) (by side) (by side) ?_
+    simp [registry, parseKind, pTransferData, encodeResp]
+  | transferExit rec =>
+    cases rec <;>
+    · refine decodeResp_of (e := registry[32]) (by rfl) (by side) (by side) (by side) ?_
+      simp [registry, parseKind, pTransferExit, encodeResp]
+  | rawPos b =>
+    have hg : gate b = .ok .raw := h
+    simp [encodeResp, decodeResp, hg]
+
 /-- unknown service or unknown sub-function: kept raw, byte for byte -/
 theorem decodeResp_raw_keeps (b : Bytes) (h : gate b = .ok .raw) : decodeResp b = .ok (.rawPos b) := by
   simp [decodeResp, h]
